@@ -101,6 +101,16 @@ def check_value(v, indent, acc, api, table, nontrivial=True):
     if not jeq(back2, v):
         acc.violation('round-trip-jsonParse', f'{v!r:.200} -> {text!r:.300} -> {back2!r:.200}', case)
         return
+    if isinstance(back2, (list, dict)):
+        # history: the parsed value belongs to the script; editing it must not influence a later parse of the same text
+        if isinstance(back2, list):
+            back2.append('edited')
+        else:
+            back2['$edited'] = 1
+        back3 = lib['jsonParse']([text], None)
+        if not jeq(back3, v):
+            acc.violation('jsonParse-result-shared', f'after editing an earlier result, jsonParse({text!r:.200}) = {back3!r:.200}', case)
+            return
     # sorted keys: re-decoding with order preserved must give sorted key sequences everywhere
     ordered = json.loads(text, object_pairs_hook=lambda pairs: ('$obj', pairs))
     if not keys_sorted(ordered):
@@ -172,7 +182,13 @@ CHARS = ['a', 'b', '.', '0', ',', ']', '}', '"', '\\', '/', '\n', '\t', '\x00', 
 _PAIR = re.compile('[\ud800-\udbff][\udc00-\udfff]')
 
 
+NUMLIKE = ['1e-07', '1e-05', '1e-5', '2.50', '1.0', '-0', '1E+3', '1.0e+20', '0.0', 'tolerance 1e-07 x', '3.0,', '[1.0]', '{"a":1.0}', '1.50e-03', 'null', 'true',
+           '5" pipe', 'a\\"b', '\\', '"', 'x.0"', '".0,']
+
+
 def rand_string(rnd):
+    if rnd.random() < 0.15:
+        return rnd.choice(NUMLIKE)
     s = ''.join(rnd.choice(CHARS) for _ in range(rnd.randint(0, 7)))
     # a lone high surrogate directly followed by a lone low one IS a non-BMP character in JSON (UTF-16): not a distinct value
     while _PAIR.search(s):
